@@ -731,13 +731,19 @@ struct IterObs {
     after_end_some: usize,
     /// first contract breach seen while iterating: (kind, offset)
     breach: Option<(&'static str, usize)>,
+    /// true while the iterator's `next()` is executing (attributes a panic to framing or to
+    /// an accessor)
+    in_next: bool,
 }
 
 fn run_iter<T: Probe, I: Iterator<Item = Result<T, ParseError>>>(mut it: I, data: &[u8], kc: &DefaultCrypto, items: &mut Vec<(usize, usize)>, o: &mut IterObs) {
     let limit = data.len() + 1;
     let mut off = 0usize;
     loop {
-        match it.next() {
+        o.in_next = true;
+        let nx = it.next();
+        o.in_next = false;
+        match nx {
             None => break,
             Some(Ok(c)) => {
                 o.yielded += 1;
@@ -774,7 +780,10 @@ fn run_iter<T: Probe, I: Iterator<Item = Result<T, ParseError>>>(mut it: I, data
                 disp(&e);
                 dbg(&e);
                 for _ in 0..3 {
-                    match it.next() {
+                    o.in_next = true;
+                    let nx = it.next();
+                    o.in_next = false;
+                    match nx {
                         None => {}
                         Some(Ok(_)) => {
                             o.breach.get_or_insert(("item-after-error", off));
@@ -791,9 +800,11 @@ fn run_iter<T: Probe, I: Iterator<Item = Result<T, ParseError>>>(mut it: I, data
     }
     // exhausted without error: further calls must at least be total
     for _ in 0..3 {
+        o.in_next = true;
         if it.next().is_some() {
             o.after_end_some += 1;
         }
+        o.in_next = false;
     }
 }
 
@@ -977,10 +988,34 @@ fn shrink(data: &[u8], mut fails: impl FnMut(&[u8]) -> bool) -> Vec<u8> {
 fn panic_sig(ep: usize, data: &[u8], io: &IterObs, t: &Trapped) -> String {
     if ep >= FIRST_ITER {
         let cid = data.get(io.consumed).copied();
-        format!("C03|{}|panic|cid={}|{}", EP[ep], cid.map(|c| format!("0x{:02x}", c)).unwrap_or("none".into()), t.file())
+        let cidname = cid.map(|c| format!("cid=0x{:02x}", c)).unwrap_or("cid=none".into());
+        if io.in_next {
+            // framing: the fixed-length commands share one generated code path
+            let class = match cid.and_then(|c| spec_len(ep - FIRST_ITER, c)) {
+                Some(L::Fixed(_)) => "fixed-length-command".to_string(),
+                Some(_) => cidname,
+                None => "unknown-cid".to_string(),
+            };
+            format!("C03|{}|panic-in-next|{}|{}", EP[ep], class, t.file())
+        } else {
+            format!("C03|{}|panic-in-accessor|{}|{}", EP[ep], cidname, t.file())
+        }
     } else {
         format!("C03|{}|panic|{}|{}", EP[ep], frame_class(data), t.file())
     }
+}
+
+/// True if a violation with this signature and an earlier-or-equal case is already recorded;
+/// then only its count is bumped (keeps a defect that fires millions of times cheap).
+fn already_have(col: &mut Collector, sig: &str) -> bool {
+    let cur = (col.cur_gen.clone(), col.cur_idx);
+    if let Some(v) = col.violations.get_mut(sig) {
+        if (v.gen.as_str(), v.idx) <= (cur.0.as_str(), cur.1) {
+            v.count += 1;
+            return true;
+        }
+    }
+    false
 }
 
 fn hash_class(ep: usize, outcome: u8, first: u16, trunc: u8) -> u64 {
@@ -999,6 +1034,9 @@ fn judge_ep(ep: usize, data: &[u8], origin: &str, cx: &mut Ctx, col: &mut Collec
             }
             cx.classes.insert(hash_class(ep, 255, first_of(data), data.len().min(64) as u8));
             let sig = panic_sig(ep, data, &io, &t);
+            if already_have(col, &sig) {
+                return None;
+            }
             // shrink while the signature stays the same
             let small = shrink(data, |d| {
                 let mut io2 = IterObs::default();
@@ -1097,7 +1135,17 @@ fn judge_iter(ep: usize, data: &[u8], origin: &str, io: &IterObs, cx: &mut Ctx, 
     }
     if let Some((kind, off)) = breach {
         let cid = data.get(off).copied().unwrap_or(0);
-        let sig = format!("C03|{}|{}|cid=0x{:02x}", EP[ep], kind, cid);
+        // breaches of the fusing / progress clauses do not depend on the command, only on how
+        // the stream ended; framing breaches are keyed by the command they happened at
+        let sig = match kind {
+            "second-error" | "item-after-error" | "more-items-than-input-octets" | "lengths-exceed-input" => {
+                format!("C03|{}|{}|after={}", EP[ep], kind, match io.err { Some((0, _)) => "unknown-cid", Some(_) => "truncated", None => "no-error" })
+            }
+            _ => format!("C03|{}|{}|cid=0x{:02x}", EP[ep], kind, cid),
+        };
+        if already_have(col, &sig) {
+            return;
+        }
         let items: Vec<Value> = cx.items.iter().map(|(o, l)| json!([o, l])).collect();
         let r = ref_frame(set, data);
         col.violation(
